@@ -859,7 +859,9 @@ func respellingParser(fset *token.FileSet, filename string, src []byte) (*ast.Fi
 				fd.Name.Name = fmt.Sprintf("%s__%d", d.name, i+2)
 				fd.Doc = nil
 				// the copy lives in the file it was copied from: same positions (the type checker looks files up by position)
-				shiftPositions(fd, token.Pos(fset.File(f.Pos()).Base()-tg.Base()))
+				// (plus the ordinal of the copy, so that no two functions share a position: analyses relate instructions by
+				// position; the reported column of a copy is off by that much, the line is right)
+				shiftPositions(fd, token.Pos(fset.File(f.Pos()).Base()-tg.Base()+i+1))
 				f.Decls = append(f.Decls, fd)
 			}
 		}
